@@ -150,7 +150,8 @@ fn to_deltas(code_map: &CodeMap, semtoks: Vec<SemTok>) -> Vec<SemanticToken> {
                 let length = if line == location.end.line {
                     location.end.column
                 } else {
-                    location.file.source_line(line).len()
+                    // (columns are counted in characters, not in bytes)
+                    location.file.source_line(line).chars().count()
                 };
 
                 let begin = LineCol { line, column };
@@ -158,14 +159,17 @@ fn to_deltas(code_map: &CodeMap, semtoks: Vec<SemTok>) -> Vec<SemanticToken> {
                     line,
                     column: length,
                 };
-                result.push((
-                    SpanLoc {
-                        file: location.file.clone(),
-                        begin,
-                        end,
-                    },
-                    ty,
-                ));
+                // (a line of a multi-line span may have nothing on it)
+                if length > column {
+                    result.push((
+                        SpanLoc {
+                            file: location.file.clone(),
+                            begin,
+                            end,
+                        },
+                        ty,
+                    ));
+                }
 
                 if line == location.end.line {
                     break;
